@@ -61,14 +61,14 @@ def Params.out (p : Params) (i : Nat) : FuncValue := p.out0.getD i (.ofType 0)
 
 /-- hypotheses on the typed move selection (`first`, `again`) and on the inputs (`visOk`, `swapInt`): see `Props/C06.lean` -/
 structure Hyp (p : Params) : Prop where
-  first : ∀ i d s, i < p.n → d < 32 → s < 32 →
+  first : ∀ i d s, i < p.n → d < 32 → s < 32 → (p.src i).isReg = true →
     moveOkAt p.cfg p.vis (p.out i).regType (p.out i).typeId (p.src i).regType (p.src i).typeId (initTok p.vis i) d s = true
   again : ∀ i d s b, i < p.n → d < 32 → s < 32 →
     moveOkAt p.cfg p.vis (p.out i).regType (p.out i).typeId (p.out i).regType (p.out i).typeId ⟨i, b, true⟩ d s = true
   /-- the variable infos the machine judges with are those of the sources / destinations -/
   visOk : ∀ i, i < p.n → p.vis[i]? = some ⟨(p.src i).typeId, (p.out i).typeId⟩
-  /-- variables of a group with an exchange instruction (x86 GP) are integers that fit their registers -/
-  swapInt : ∀ i, i < p.n → hasSwap p.cfg.arch (groupOf (p.out i).regType) = true →
+  /-- register-resident variables of a group with an exchange instruction (x86 GP) are integers that fit their registers -/
+  swapInt : ∀ i, i < p.n → (p.src i).isReg = true → hasSwap p.cfg.arch (groupOf (p.out i).regType) = true →
     isInt (p.src i).typeId = true ∧ isAbstract (p.src i).typeId = false ∧
     isInt (p.out i).typeId = true ∧ isAbstract (p.out i).typeId = false ∧
     tySize (p.src i).typeId ≤ regBytes (p.src i).regType ∧ tySize (p.out i).typeId ≤ regBytes (p.out i).regType
@@ -92,6 +92,8 @@ structure VarOK (p : Params) (c : Ctx) (M : State) (i : Nat) (v : Var) : Prop wh
   phys : physAt c (groupOf v.cur.regType) v.cur.regId = some i
   tok : ∃ tok, M.get (vloc v) = some tok ∧ tok.var = i ∧ (v.done = false → Form p i v tok) ∧
         (v.done = true → v.cur.regId = v.out.regId ∧ tok.dv = true)
+  /-- a register variable that is not done arrived in a register (stack arguments are loaded straight into their destination) -/
+  srcReg : v.done = false → (p.src i).isReg = true
 
 /-- a variable that still sits in its incoming stack slot (phase 3 loads it): never touched, token in source form -/
 structure StkOK (p : Params) (M : State) (i : Nat) (v : Var) : Prop where
